@@ -802,25 +802,48 @@ class List(list, base.Symbolic, pg_typing.CustomTyping):
       if isinstance(old_value, base.TopologyAware):
         old_value.sym_setparent(None)
         old_value.sym_setpath(utils.KeyPath())
+    self._notify_position_changes(old_values)
 
   def sort(self, *, key=None, reverse=False) -> None:
     """Sorts the items of the list in place.."""
     if base.treats_as_sealed(self):
       raise base.WritePermissionError('Cannot sort a sealed List.')
+    old_values = list(self.sym_values())
     try:
       super().sort(key=key, reverse=reverse)
     finally:
       # NOTE: a failed sort (e.g. incomparable items) may have moved items.
       self._sync_children_paths()
       self._sym_reset_content_cache()
+    self._notify_position_changes(old_values)
 
   def reverse(self) -> None:
     """Reverse the elements of the list in place."""
     if base.treats_as_sealed(self):
       raise base.WritePermissionError('Cannot reverse a sealed List.')
+    old_values = list(self.sym_values())
     super().reverse()
     self._sync_children_paths()
     self._sym_reset_content_cache()
+    self._notify_position_changes(old_values)
+
+  def _notify_position_changes(self, old_values) -> None:
+    """Delivers one change event for the positions whose value changed."""
+    if not flags.is_change_notification_enabled():
+      return
+    new_values = list(self.sym_values())
+    element = self._value_spec.element if self._value_spec else None
+    updates = []
+    for i in range(max(len(old_values), len(new_values))):
+      old_value = (
+          old_values[i] if i < len(old_values) else pg_typing.MISSING_VALUE)
+      new_value = (
+          new_values[i] if i < len(new_values) else pg_typing.MISSING_VALUE)
+      if old_value is not new_value:
+        updates.append(base.FieldUpdate(
+            self.sym_path + i, self, element, old_value, new_value))
+    if updates:
+      self._notify_field_updates(updates)
 
   def custom_apply(
       self,
